@@ -161,13 +161,23 @@ impl Interp {
             ["e2e.start", name, ..] => {
                 let (Some(proto), Some(cipher), Some(spw), Some(cpw), Some(users), Some(mode)) = (kv(t, "protocol"), kv(t, "cipher"), kv(t, "spw"), kv(t, "cpw"), kv(t, "users"), kv(t, "mode")) else { return "bad-op".into() };
                 let threads = kv(t, "threads").and_then(|x| x.parse().ok()).unwrap_or(4);
-                match crate::e2e::World::start(proto, cipher, spw, cpw, &crate::stream::parse_users(users), mode, kv(t, "cmode"), kv(t, "ws") == Some("1"), kv(t, "link") == Some("1"), threads, kv(t, "tls")) {
-                    Ok(w) => {
-                        self.objs.insert(name.to_string(), Obj::World(w));
-                        "ok".into()
+                // (the ports are picked free and bound a moment later: another socket of this busy process may take one in
+                // between — that is a property of the harness, not of the code under test; try again with new ports)
+                for attempt in 0..4 {
+                    match crate::e2e::World::start(proto, cipher, spw, cpw, &crate::stream::parse_users(users), mode, kv(t, "cmode"), kv(t, "ws") == Some("1"), kv(t, "link") == Some("1"), threads, kv(t, "tls")) {
+                        Ok(w) => {
+                            self.objs.insert(name.to_string(), Obj::World(w));
+                            return "ok".into();
+                        }
+                        Err(e) => {
+                            let msg = e.to_string();
+                            if attempt == 3 || !(msg.contains("in use") || msg.contains("Address already")) {
+                                return "err".into();
+                            }
+                        }
                     }
-                    Err(_) => "err".into(),
                 }
+                "err".into()
             }
             ["e2e.tcp", name, ..] => {
                 let Some(Obj::World(w)) = self.objs.get(*name) else { return "bad-op".into() };
